@@ -44,6 +44,16 @@ func main() {
 		debugMain(os.Args[2:])
 	case "matrix":
 		matrixMain()
+	case "chans":
+		p, err := Load(repoDir(), BuildConfig{})
+		if err != nil {
+			fmt.Println("ERR", err)
+			os.Exit(2)
+		}
+		cf := p.chanFlow()
+		for m, k := range cf.keys {
+			fmt.Printf("%-28s %s in %s\n", k, p.Pos(m.Pos()), p.Name(m.Parent()))
+		}
 	case "check":
 		os.Exit(checkMain(os.Args[2:]))
 	default:
